@@ -11,6 +11,8 @@ def check(ctx):
 
     core7.group_has_enclosing(ctx, "C13")
     core7.group_complete(ctx, "C13")
+    # a body defined under a false condition must not request: the merged transaction would run its partner without it
+    core2.body_wrappers(ctx, "C13")
     # which members of a simultaneous group are enabled by their ready dependencies is decided from this set
     from . import core5
 
